@@ -279,6 +279,23 @@ func hbImport(nd *test.Node, enc []byte) (module.BlockCandidate, error) {
 	return hbWait(ch, "Import")
 }
 
+// hbImportBlock is the entry the consensus engine uses once it has assembled a block from its parts: the bytes
+// are decoded by the node (NewBlockDataFromReader) and the block object is handed to ImportBlock.
+func hbImportBlock(nd *test.Node, enc []byte) (module.BlockCandidate, error) {
+	bd, err := nd.BM.NewBlockDataFromReader(bytes.NewReader(enc))
+	if err != nil {
+		return nil, err
+	}
+	ch := make(chan hbCB, 1)
+	_, err = nd.BM.ImportBlock(bd, 0, func(bc module.BlockCandidate, err error) {
+		ch <- hbCB{bc, err}
+	})
+	if err != nil {
+		return nil, err
+	}
+	return hbWait(ch, "ImportBlock")
+}
+
 func hbMarshal(blk module.BlockData) []byte {
 	var buf bytes.Buffer
 	if err := blk.Marshal(&buf); err != nil {
